@@ -52,7 +52,9 @@ def run_case(rng, res, idx, tier):
         head = []
         for t in range(c):
             head.append(('train',))
-            if t < c - 1 and rng.random() < 0.3:
+            # (more often right after a factor-update boundary: a later save inside the same factor interval must still write
+            # the factors that are current then)
+            if t < c - 1 and rng.random() < (0.75 if (F > 1 and (t + 1) % F == 0) else 0.3):
                 head.append(('sd_only',))
         sp['history'] = head + [('ckpt', compute)] + tail + ([('sd_only',)] if rng.random() < 0.3 else [])
         policy = simdist.POLICIES[(idx + c) % len(simdist.POLICIES)]
